@@ -105,10 +105,25 @@ Definition chclose_shape_ok : bool :=
   rechecked_before_raise KTestClosed KCheckErrors src_Channel_check_for_errors &&
   before KCheckExceptions KTestClosed src_Channel_check_for_errors.
 
+(* ---- C14: one consumer tag is added / removed by a single in-place list operation (atomic
+        under the interpreter lock); the list object is only replaced when ALL tags go ---- *)
+Definition tags_shape_ok : bool :=
+  once KTagsInPlace src_BaseChannel_add_consumer_tag && absent KTagsRebind src_BaseChannel_add_consumer_tag &&
+  once KTagsInPlace src_BaseChannel_remove_consumer_tag &&
+  Nat.leb (count_call KTagsRebind src_BaseChannel_remove_consumer_tag) 1 &&
+  (* the replacement, if any, sits in the else branch (no tag given) *)
+  match index_of KTagsRebind src_BaseChannel_remove_consumer_tag, tok_index TElse src_BaseChannel_remove_consumer_tag with
+  | Some i, Some j => Nat.ltb j i
+  | None, _ => true
+  | _, _ => false
+  end.
+
 (* ---- C10: number chosen, registered and opened under Connection.lock ---- *)
 Definition alloc_shape_ok : bool :=
   all_under LConn KNextId src_Connection_channel &&
   all_under LConn KStoreChannel src_Connection_channel &&
   all_under LConn KChannelOpen src_Connection_channel &&
   before KNextId KStoreChannel src_Connection_channel &&
-  before KStoreChannel KChannelOpen src_Connection_channel.
+  before KStoreChannel KChannelOpen src_Connection_channel &&
+  (* a number the broker closed reads as free only after its CloseOk has been written *)
+  before KConnWriteFrame KSetClosed src_Channel_close_channel.
